@@ -295,6 +295,12 @@ func (g *genState) genPub() Op {
 	for i := 0; i < n; i++ {
 		op.Msgs = append(op.Msgs, g.genMsg())
 	}
+	if n > 0 && g.p.name != "protocol" && rng.Intn(120) == 0 {
+		// one message of the batch is beyond the 64 MiB the writers accept: the Publish is
+		// refused, and nothing of the batch may ever show up
+		i := rng.Intn(n)
+		op.Msgs[i].Pad = maxBody + 1 + int64(rng.Intn(64)) - int64(len(op.Msgs[i].Key)+len(op.Msgs[i].Val))
+	}
 	return op
 }
 
